@@ -302,6 +302,9 @@ def body(chk, db, cfgname):
             r4.ok(HH + "::getEigenValues", g.loc(), "copies every block's eigenvalues to consecutive positions (offset += size)", cfgname)
         else:
             r4.bad(HH + "::getEigenValues", g.loc(), why, cfgname)
+    r_idem = chk.rule("C03-R5", "prepare()/compute() are idempotent: the early-return level is the level the function establishes", "F1 pairing", 3)
+    from checks.lehmann import check_status_guards
+    check_status_guards(r_idem, db, cfgname, ("Pomerol::Hamiltonian", "Pomerol::HamiltonianPart"))
     chk.undecided.append("equality of the multiset of block eigenvalues with the spectrum of the full 2^N matrix, orthonormality and H v = E v (value level; Eigen's SelfAdjointEigenSolver is trusted)")
 
 
